@@ -259,3 +259,33 @@ def deep_behaviours(seed, count, nkeys):
     rng = random.Random(seed)
     return [deep_behaviour(rng, nkeys) for _ in range(count)]
 
+
+def hugeflush_behaviour(rng, nkeys):
+    """One flush whose index table outgrows the flush writer's 64 MiB target, so the table
+    writer rotates inside the flush: ~700 inline versions of key 1 (99 KB each, kept by
+    watermark 0) followed by separated values of the other keys - the first key of the second
+    table is a pointer.  Then drops / merges that use the per-table blob links."""
+    n = rng.choice([690, 700, 720])
+    items = [{"k": 1, "t": "V", "v": 2 * (i % 40) + 1} for i in range(n)]
+    ops = [{"op": "_meta", "key_alpha": 0, "val_alpha": 3, "phys": 0, "phys_list": [0],
+            "blob": {"threshold": 100000, "file_target": 1 << 26, "staleness": 0.5, "age_cutoff": 1.0,
+                     "lz4": False}},
+           {"op": "writes", "items": items}]
+    for k in range(2, nkeys + 1):
+        ops.append({"op": "write", "items": [{"k": k, "t": "V", "v": 2 * k}]})
+    ops += [{"op": "rotate"}, {"op": "flush", "w": 0}]
+    tail = rng.choice(["drop_hi", "drop_lo", "major"])
+    if tail == "drop_hi":
+        ops.append({"op": "droprange", "lo": ["I", 4], "hi": ["U", 0]})
+    elif tail == "drop_lo":
+        ops.append({"op": "droprange", "lo": ["U", 0], "hi": ["I", 2]})
+    else:
+        ops.append({"op": "major", "split": "none", "w": "safe"})
+    ops.append({"op": "reopen"})
+    return ops
+
+
+def hugeflush_behaviours(seed, count, nkeys):
+    rng = random.Random(seed)
+    return [hugeflush_behaviour(rng, nkeys) for _ in range(count)]
+
